@@ -45,7 +45,8 @@ from psyclone.psyir.nodes import (
     Return, Literal, Assignment, StructureMember, StructureReference)
 from psyclone.psyir.nodes.array_mixin import ArrayMixin
 from psyclone.psyir.symbols import (
-    ArgumentInterface, ArrayType, DataSymbol, UnresolvedType, INTEGER_TYPE,
+    ArgumentInterface, ArrayType, ContainerSymbol, DataSymbol, UnresolvedType,
+    INTEGER_TYPE,
     RoutineSymbol, StaticInterface, Symbol, SymbolError, UnknownInterface,
     UnsupportedType, IntrinsicSymbol)
 from psyclone.psyir.transformations.reference2arrayrange_trans import (
@@ -157,6 +158,30 @@ class InlineTrans(Transformation):
         for child in routine.children:
             new_stmts.append(child.copy())
             refs.extend(new_stmts[-1].walk(Reference))
+
+        # A local symbol of the routine must not hide a symbol from an outer
+        # scope of the call site (e.g. a module variable) since that may be
+        # accessed by the code surrounding the call.
+        for sym in routine_table.symbols:
+            if (sym in self._symbols_to_skip(routine_table) or
+                    isinstance(sym, ContainerSymbol) or sym.is_import or
+                    sym.is_unresolved or sym.name in table):
+                continue
+            try:
+                outer_sym = table.lookup(sym.name)
+            except KeyError:
+                continue
+            if not isinstance(outer_sym, DataSymbol):
+                continue
+            try:
+                routine_table.rename_symbol(
+                    sym, table.next_available_name(
+                        sym.name, other_table=routine_table))
+            except SymbolError as err:
+                raise TransformationError(
+                    f"Cannot inline routine '{routine.name}' because its "
+                    f"symbol '{sym.name}' would hide a symbol of the same "
+                    f"name at the call site and cannot be renamed.") from err
 
         # Shallow copy the symbols from the routine into the table at the
         # call site.
